@@ -1,4 +1,5 @@
 import KmipProofs.SessionLemmas
+import KmipProofs.WireLemmas
 /-
   C07 — the server answers every request exactly once, in order, or closes the connection.
 
@@ -180,3 +181,75 @@ example : responses (session exCfg [.request exReq1, .request exReq2, .eof]) = [
 example : (session exCfg [.request exReq1, .request exReq2, .eof]).getLast? = some Ev.close := by decide
 
 end Kmip.Session
+
+
+/-! ### the response itself, field by field (KmipModel/Wire.lean) -/
+namespace Kmip.Wire
+open Kmip
+
+/-- **What a response says.**  Whenever handleBatch produces a response for a decoded Request (any Request value at all, any
+    handlers `H`), that response carries the request's protocol version, client correlation value and batch count, the server's
+    clock, and exactly one item per request item, in the request's order, each with that item's operation and unique batch item
+    ID and the outcome of the handler invoked for THAT item (index `i`) - and this is what a Client reading it sees. -/
+theorem C07_wire_echo (zNonce zExt : Val) (clock : Nat) (authOk : Bool) (H : Nat → ItemIn → HRes) (req resp : Val)
+    (h : handleBatch zNonce zExt clock authOk H req = some resp) :
+    ∃ rq, reqView req = some rq ∧ resp = respVal zNonce zExt clock H rq ∧
+      rq.batchCount = rq.items.length ∧ rq.async = false ∧
+      Client.respView resp = some { batchCount := rq.batchCount, items := viewsOf H 0 rq.items } ∧
+      (viewsOf H 0 rq.items).length = rq.items.length := by
+  unfold handleBatch at h
+  cases hv : reqView req with
+  | none => rw [hv] at h; simp at h
+  | some rq =>
+    rw [hv] at h
+    simp only at h
+    split at h
+    · simp at h
+    · rename_i hc
+      split at h
+      · simp at h
+      · rename_i ha
+        split at h
+        · simp at h
+        · simp only [Option.some.injEq] at h
+          subst h
+          refine ⟨rq, rfl, rfl, ?_, by simpa using ha, respView_respVal zNonce zExt clock H rq, viewsOf_length H 0 rq.items⟩
+          have : ¬ (rq.batchCount ≠ rq.items.length) := fun hh => hc (Or.inl hh)
+          simpa using this
+
+/-- the k-th item of the response answers the k-th item of the request: same operation, the outcome of handler call `k` -/
+theorem C07_wire_item (H : Nat → ItemIn → HRes) : ∀ (i : Nat) (its : List ItemIn) (k : Nat) (it : ItemIn),
+    its[k]? = some it → (viewsOf H i its)[k]? = some (viewOf it (H (i + k) it))
+  | _, [], k, it, h => by simp at h
+  | i, x :: rest, 0, it, h => by
+    simp only [List.getElem?_cons_zero, Option.some.injEq] at h
+    subst h
+    simp [viewsOf]
+  | i, x :: rest, k + 1, it, h => by
+    simp only [List.getElem?_cons_succ] at h
+    have := C07_wire_item H (i + 1) rest k it h
+    simp only [viewsOf, List.getElem?_cons_succ, this]
+    congr 3
+    omega
+
+/-- no response at all (the session then closes the connection) for a request whose batch count is not its number of items,
+    that asks for asynchronous processing, or whose credentials were not accepted -/
+theorem C07_wire_no_response (zNonce zExt : Val) (clock : Nat) (authOk : Bool) (H : Nat → ItemIn → HRes) (req : Val) (rq : ReqView)
+    (hv : reqView req = some rq)
+    (hbad : rq.batchCount ≠ rq.items.length ∨ rq.async = true ∨ (rq.credType ≠ 0 ∧ authOk = false)) :
+    handleBatch zNonce zExt clock authOk H req = none := by
+  unfold handleBatch
+  rw [hv]
+  simp only
+  by_cases hc : rq.batchCount ≠ rq.items.length ∨ 2147483648 ≤ rq.batchCount
+  · rw [if_pos hc]
+  · rw [if_neg hc]
+    by_cases ha : rq.async = true
+    · rw [if_pos ha]
+    · rw [if_neg ha]
+      rcases hbad with h | h | h
+      · exact absurd (Or.inl h) hc
+      · exact absurd h ha
+      · rw [if_pos h]
+
+end Kmip.Wire
